@@ -197,6 +197,19 @@ CLAIMED = {
 }
 NA = {}
 
+def rules_now(pid):
+    """The rule set as it runs today (rules were added and shared across properties while building, DESIGN.md 10.3), read from the
+    evidence file the check wrote."""
+    try:
+        ev = json.load(open(os.path.join(HERE, "evidence", "%s.json" % pid)))
+        rules = ev["coverage"]["rules"]
+        ids = sorted(rules, key=lambda r: (r.rstrip("0123456789'ab"), len(r), r))
+        return (" Rules run today (own and shared with sibling properties; one line each in the evidence file; the program model is "
+                "normalised first - unknown helpers inlined, constants and access-path locals propagated, DESIGN.md 10.8): " + ", ".join(ids) + ".")
+    except Exception:
+        return ""
+
+
 def main():
     checks = []
     for p in props:
@@ -210,7 +223,7 @@ def main():
                 "evidence_file": "/verif/evidence/%s.json" % pid,
                 "replay_cmd_template": "/venv/bin/python /verif/check --replay {path}",
                 "engine": "sa",
-                "level_claimed": {"category": "other", "text": c["text"], "design_ref": "DESIGN.md section " + c["ref"]},
+                "level_claimed": {"category": "other", "text": c["text"] + rules_now(pid), "design_ref": "DESIGN.md section " + c["ref"] + " and 10.3"},
                 "level_note": NOTE,
                 "technique": c["technique"],
             })
